@@ -554,6 +554,27 @@ class Extractor:
                 return ("ascii_alpha",)
             if txt == f"{c}.is_ascii_alphanumeric()":
                 return ("ascii_alnum",)
+            # c != 'x' [&& c != 'y']   /   c == 'x' [|| c == 'y']
+            def cmp_chars(b_, op_, join_):
+                b_ = A.peel(b_)
+                if A.kind(b_) == "Expr::Binary" and A.kind(b_["op"]) == join_:
+                    l_, r_ = cmp_chars(b_["left"], op_, join_), cmp_chars(b_["right"], op_, join_)
+                    return l_ + r_ if l_ is not None and r_ is not None else None
+                if A.kind(b_) == "Expr::Binary" and A.kind(b_["op"]) == op_:
+                    for x_, y_ in ((b_["left"], b_["right"]), (b_["right"], b_["left"])):
+                        x_, y_ = A.peel(x_), A.peel(y_)
+                        while A.kind(x_) == "Expr::Unary" and A.kind(x_["op"]) == "UnOp::Deref":
+                            x_ = A.peel(x_["expr"])
+                        if A.path_str(x_) == c and A.kind(y_) == "Expr::Lit" and A.kind(y_["lit"]) == "Lit::Char":
+                            return [y_["lit"]["token"]["value"]]
+                return None
+
+            ne = cmp_chars(body, "BinOp::Ne", "BinOp::And")
+            if ne:
+                return ("notin", "".join(ne))
+            eq = cmp_chars(body, "BinOp::Eq", "BinOp::Or")
+            if eq:
+                return ("digit",) if set(eq) == set("0123456789") else ("oneof", "".join(eq))
             # !matches!(c, 'x' | 'y')
             if A.kind(body) == "Expr::Unary" and A.kind(body["op"]) == "UnOp::Not" and A.kind(body["expr"]) == "Expr::Macro" and A.path_last(body["expr"]["mac"]["path"]) == "matches":
                 chars = self.matches_chars(fn, body["expr"]["mac"]["tokens"])
